@@ -1,7 +1,7 @@
 (* DriverModel.v — the transcripts the correspondence check compares: for each family of driver case
    the model computes exactly the observables the C++ driver prints.  Executable; extracted. *)
 From Coq Require Import ZArith List Bool.
-From MdspanVerif Require Import MachInt ListAux Layouts Extents Convert View MdArray Submdspan SubSpec Concurrency ObjLayout.
+From MdspanVerif Require Import MachInt ListAux Layouts Extents Convert View MdArray Submdspan SubSpec Concurrency ObjLayout Constraints.
 Import ListNotations.
 Local Open Scope Z_scope.
 
@@ -397,3 +397,32 @@ Definition l_layout (t : ity) (lay : nat) (pat : pattern) (pv : option Z) (acc :
   let b2z (b : bool) := if b then 1 else 0 in
   [ TL (Ok [Z.of_nat (sizeof E); b2z (is_empty E); Z.of_nat (sizeof M); b2z (is_empty M); Z.of_nat (sizeof MD); b2z (is_empty MD)]);
     TL (Ok [b2z (triv_copyable E); b2z (triv_copyable M); b2z (triv_copyable (c_accessor acc)); b2z (triv_copyable MD)]) ].
+
+(* ---- family Q: overload participation and explicitness (C16) ---------------------------------------- *)
+Inductive qdesc := QE (e : ext_t) | QM (m : map_t) | QA (a : acc_t) | QD (d : mds_t).
+Inductive query :=
+| QPair (s d : qdesc)                        (* is_constructible<D, const S&>, is_convertible<const S&, D> *)
+| QExtPack (e : ext_t) (args : list arg)     (* is_constructible<E, Args...> *)
+| QExtArr (e : ext_t) (a : arg) (n : nat)    (* from const array<A,n>& and span<A,n>: constructible, convertible *)
+| QMdsPack (m : mds_t) (args : list arg)     (* is_constructible<MD, handle, Args...> *)
+| QMdsArr (m : mds_t) (a : arg) (n : nat)    (* (handle, array<A,n>) and (handle, span<A,n>) *)
+| QMdsParts (m : mds_t)                      (* (handle, extents), (handle, mapping), (handle, mapping, accessor) *)
+| QCall (m : mds_t) (args : list arg)        (* mapping(args...) invocable; mdspan[args...] / mdspan(args...) *)
+| QIndexArr (m : mds_t) (a : arg) (n : nat). (* mdspan[array<A,n>], mdspan[span<A,n>] *)
+Definition b2z (b : bool) : Z := if b then 1 else 0.
+Definition q_eval (cxx20 : bool) (q : query) : list Z :=
+  match q with
+  | QPair (QE s) (QE d) => [b2z (ext_constructible s d); b2z (ext_convertible cxx20 s d)]
+  | QPair (QM s) (QM d) => [b2z (map_constructible cxx20 s d); b2z (map_convertible cxx20 s d)]
+  | QPair (QA s) (QA d) => [b2z (acc_convertible s d); b2z (acc_convertible s d)]
+  | QPair (QD s) (QD d) => [b2z (mds_constructible cxx20 s d); b2z (mds_convertible cxx20 s d)]
+  | QPair _ _ => [0; 0]
+  | QExtPack e args => [b2z (ext_from_pack e args)]
+  | QExtArr e a n => let '(c, v) := ext_from_array cxx20 e a n in [b2z c; b2z v; b2z c; b2z v]
+  | QMdsPack m args => [b2z (mds_from_pack m args)]
+  | QMdsArr m a n => [b2z (mds_from_array m a n); b2z (mds_from_array m a n)]
+  | QMdsParts m => [b2z (mds_from_extents m); b2z (mds_from_mapping m); 1]
+  | QCall m args => let p := x_pat (m_ext (md_map m)) in [b2z (call_ok p args); b2z (call_ok p args)]
+  | QIndexArr m a n => let p := x_pat (m_ext (md_map m)) in [b2z (index_array_ok p a n); b2z (index_array_ok p a n)]
+  end.
+Definition q_query (q : query) : list tval := [TL (Ok (q_eval false q)); TL (Ok (q_eval true q))].
